@@ -132,12 +132,14 @@ def check_targets(targets, rg):
     bl = blocks()
     res = {}
     defs = {d["coq"]: d for d in (rg["manifest"] or {}).get("definitions", [])}
+    present = set(re.findall(r"[A-Za-z_][A-Za-z0-9_']*", vlib.strip_comments(rg["text"] or "")))
 
     def source_of(t):
         names = set()
         for n in closure(bl, t):
             names.update(bl[n]["uses"])
-        return {n: (f"{defs[n]['origin']} [{defs[n]['hash']}]" if n in defs else "NOT GENERATED") for n in sorted(names)}
+        return {n: (f"{defs[n]['origin']} [{defs[n]['hash']}]" if n in defs else "NOT GENERATED")
+                for n in sorted(names) if n in defs or n not in present}
 
     for t in targets:
         if t not in bl:
